@@ -1,7 +1,7 @@
 (** C16 - Notification hooks fire exactly once and in order around each link
     change.  Only statements; proofs are [exact <lemma>]. *)
 Require Import AT.Model.Base AT.Model.Heap AT.Model.Mutate AT.Spec.MutSpec.
-Require AT.Proofs.MutParent AT.Proofs.MutHistory.
+Require AT.Proofs.MutParent AT.Proofs.MutHistory AT.Proofs.MutDelRun.
 Import AT.Proofs.MutParent.
 
 (** a parent change that actually happens logs exactly
@@ -72,6 +72,18 @@ Theorem C16_post_no_rollback : forall typed asrt faults n v h r s',
        exists q, v = Some q /\ heap_of s' = attach_links (after_detach h n) n q).
 Proof. exact set_parent_post_fault. Qed.
 Print Assumptions C16_post_no_rollback.
+
+(** `del n.children` wraps the per-child detach calls (each child's
+    _pre_detach / _post_detach, in order, each in the state reached so far) in
+    _pre_detach_children / _post_detach_children with the former children *)
+Theorem C16_del_log : forall typed asrt n s,
+  let h := heap_of s in
+  Inv h -> n < length h ->
+  log (snd (del_children typed asrt no_faults n s)) = log s ++ fst (log_del_children h n).
+Proof.
+  intros typed asrt n s h I Hn. rewrite (MutDelRun.del_children_run typed asrt n s I Hn). reflexivity.
+Qed.
+Print Assumptions C16_del_log.
 
 (** Not yet proved in Coq (kept visible): the wrapping of the per-child calls
     by the four *_children hooks.  Decided on every explored call by
